@@ -34,6 +34,9 @@ class Canon:
         self.repo = repo
         self._alias_tables = {}
         self._getter = {}
+        # path environment: (id(frame), local name) -> constant ast node, set by
+        # walkers that follow one path (string/bool locals such as `pool`)
+        self.penv = {}
 
     def class_name(self, name):
         c = self.repo.classes.get(name)
@@ -111,6 +114,9 @@ class Canon:
                 if e.id == 'self' and frame.func.cls is not None and \
                         self.class_name(frame.func.cls.name) in SINGLETONS:
                     return self.class_name(frame.func.cls.name)
+                pk = (id(frame), e.id)
+                if pk in self.penv:
+                    return repr(self.penv[pk].value)
                 if e.id in frame.binding:
                     ex, fr = frame.binding[e.id]
                     if fr is None:   # default value
@@ -444,6 +450,37 @@ class Effect:
     def __repr__(self):
         return '<%s %s %s @%s>' % (self.kind, self.loc, self.arg,
                                    getattr(self.node, 'lineno', '?'))
+
+
+def track_path_consts(canon, ev):
+    """update canon.penv with constant assignments to locals made by this event"""
+    if ev.kind != 'stmt' or ev.extra == 'with':
+        return
+    n = ev.node
+    if isinstance(n, ast.Assign):
+        for t in n.targets:
+            for x in ast.walk(t):
+                if isinstance(x, ast.Name):
+                    canon.penv.pop((id(ev.frame), x.id), None)
+        if len(n.targets) == 1 and isinstance(n.targets[0], ast.Name) and isinstance(
+                n.value, ast.Constant) and isinstance(n.value.value, (str, bool)):
+            canon.penv[(id(ev.frame), n.targets[0].id)] = n.value
+    elif isinstance(n, (ast.AugAssign, ast.AnnAssign)) and isinstance(n.target, ast.Name):
+        canon.penv.pop((id(ev.frame), n.target.id), None)
+
+
+def effects_along(canon, events):
+    """[(event, [Effect])] following one path, with path-sensitive constant locals"""
+    saved = canon.penv
+    canon.penv = {}
+    out = []
+    try:
+        for e in events:
+            out.append((e, effects_of_event(canon, e)))
+            track_path_consts(canon, e)
+    finally:
+        canon.penv = saved
+    return out
 
 
 def effects_of_event(canon, ev):
